@@ -5,6 +5,7 @@ go 1.26.8
 require (
 	github.com/diskfs/go-diskfs v0.0.0
 	github.com/google/uuid v1.6.0
+	golang.org/x/sys v0.43.0
 )
 
 require (
@@ -16,7 +17,6 @@ require (
 	github.com/pkg/xattr v0.4.12 // indirect
 	github.com/sirupsen/logrus v1.9.4 // indirect
 	github.com/ulikunitz/xz v0.5.15 // indirect
-	golang.org/x/sys v0.43.0 // indirect
 )
 
 replace github.com/diskfs/go-diskfs => /repo
